@@ -70,7 +70,7 @@ bool ParseSchedule(const std::string & text, std::vector<Choice> & out)
 }
 
 Options::Options()
-   : seed(1), policy(RANDOM), tolerant_schedule(false),
+   : seed(1), policy(RANDOM), tolerant_schedule(false), reuse_threads(true),
      log_kinds(~(KindBit(K_ATOMIC_INC)|KindBit(K_ATOMIC_DEC)|KindBit(K_ATOMIC_CAS))),
      decide_kinds(KindBit(K_MUTEX_LOCK)|KindBit(K_WC_WAIT)|KindBit(K_WC_TIMEDWAIT)|KindBit(K_SEM_WAIT)|KindBit(K_SEM_TIMEDWAIT)|
                   KindBit(K_THREAD_SPAWNED)|KindBit(K_THREAD_JOIN)),
@@ -121,13 +121,57 @@ struct ThreadRec {
 struct MutexRec { MutexRec() : owner(-1), depth(0) {} int owner; int depth; };
 
 static bool g_abandoned = false;
+
+// Controlled threads run on pooled, persistent native threads: creating a thread costs tens of milliseconds under ASan on a
+// loaded machine, a hand-off costs microseconds.  A worker whose job never returns (abandoned run) is simply lost.
+struct Worker {
+   Worker() : has_job(false) {}
+   std::mutex m;
+   std::condition_variable cv;
+   std::function<void()> job;
+   bool has_job;
+};
+static std::mutex g_pool_mu;
+static std::vector<Worker *> g_idle;
+static void WorkerLoop(Worker * w)
+{
+   for(;;)
+   {
+      std::function<void()> j;
+      {
+         std::unique_lock<std::mutex> lk(w->m);
+         while(!w->has_job) w->cv.wait(lk);
+         j.swap(w->job);
+         w->has_job = false;
+      }
+      j();
+      j = std::function<void()>();
+      std::unique_lock<std::mutex> lk(g_pool_mu);
+      g_idle.push_back(w);
+   }
+}
+static void RunOnWorker(const std::function<void()> & j)
+{
+   Worker * w = 0;
+   {
+      std::unique_lock<std::mutex> lk(g_pool_mu);
+      if (!g_idle.empty()) {w = g_idle.back(); g_idle.pop_back();}
+   }
+   if (w == 0) {w = new Worker; std::thread(WorkerLoop, w).detach();}
+   {
+      std::unique_lock<std::mutex> lk(w->m);
+      w->job = j;
+      w->has_job = true;
+   }
+   w->cv.notify_one();
+}
 static Scheduler::Impl * g_active = 0;
 static thread_local ThreadRec * tl_me = 0;
 static thread_local Scheduler::Impl * tl_impl = 0;
 static thread_local bool tl_in_callback = false;
 
 struct Scheduler::Impl {
-   Impl(const Options & o) : opt(o), turn(-1), over(false), ran(false), decisions(0), sched_pos(0), rng(o.seed*0x9E3779B97F4A7C15ULL + 0x1234567ULL), registered(0), pending_adopt(0) {res.status = Result::COMPLETED;}
+   Impl(const Options & o) : opt(o), turn(-1), over(false), ran(false), decisions(0), sched_pos(0), rng(o.seed*0x9E3779B97F4A7C15ULL + 0x1234567ULL), registered(0), exited(0), pending_adopt(0) {res.status = Result::COMPLETED;}
 
    Options opt;
    std::mutex mu;
@@ -139,6 +183,7 @@ struct Scheduler::Impl {
    size_t sched_pos;
    uint64_t rng;
    size_t registered;
+   size_t exited;                // pooled threads that have left ThreadMain
    int pending_adopt;
    Result res;
    std::map<const void *, int> obj_ids;
@@ -502,6 +547,8 @@ static void ThreadMain(Scheduler::Impl * impl, ThreadRec * me)
       me->st = ThreadRec::FINISHED;
       tl_me = 0; tl_impl = 0;
       impl->Decide(lk, me);
+      impl->exited++;
+      impl->main_cv.notify_all();
    }
 }
 
@@ -512,12 +559,18 @@ Result Scheduler::Run()
    const size_t n = im->threads.size();
    g_active = im;
    muscle_verif_hook_ref() = &HookFn;
-   for (size_t i=0; i<n; i++) {ThreadRec * t = im->threads[i].get(); t->th = std::thread(ThreadMain, im, t);}
+   for (size_t i=0; i<n; i++)
+   {
+      ThreadRec * t = im->threads[i].get();
+      if (im->opt.reuse_threads) RunOnWorker([im, t]{ThreadMain(im, t);});
+                            else t->th = std::thread(ThreadMain, im, t);
+   }
    {
       std::unique_lock<std::mutex> lk(im->mu);
       while(im->registered < n) im->main_cv.wait(lk);
       im->Decide(lk, 0);
       while(!im->over) im->main_cv.wait(lk);
+      if (im->res.status == Result::COMPLETED) while(im->exited < n) im->main_cv.wait(lk);   // nobody touches *im after this
    }
    const bool ok = (im->res.status == Result::COMPLETED);
    for (size_t i=0; i<im->threads.size(); i++)
